@@ -342,6 +342,146 @@ func c14V2() c14sdk {
 	}}
 }
 
+// c14KeyOps are the calls whose Key structure stays in the caller's hands: the key of an item that
+// UpdateItem creates is the one place where a request's key becomes stored data.
+var c14KeyOps = []string{"UpdateItem(creates the item)", "UpdateItem(existing item)", "DeleteItem(condition false)", "GetItem"}
+
+var c14KeyTypes = []struct {
+	t    string
+	v, w val.V
+}{{"S", val.S("k"), val.S("k2")}, {"N", val.N("7"), val.N("8")}, {"B", val.B(1, 2), val.B(3)}}
+
+// c14KeyRun performs one key scenario on a fresh client: hash key h and range key r of the given
+// type; it returns the mutable locations of the Key map the call received and a read of the
+// whole table (GetItem by a fresh copy of the key, then Scan).
+func c14KeyRun(sdk, op string, kt int) ([]mutation, func() string, bool) {
+	k := c14KeyTypes[kt]
+	keyItem := func() val.Item { return val.Item{"h": k.v.Clone(), "r": k.w.Clone()} }
+	var muts []mutation
+	if sdk == "v1" {
+		c := v1c.NewClient()
+		_, err := c.CreateTable(&ddb1.CreateTableInput{TableName: aws1.String("tab"), BillingMode: aws1.String("PAY_PER_REQUEST"),
+			AttributeDefinitions: []*ddb1.AttributeDefinition{{AttributeName: aws1.String("h"), AttributeType: aws1.String(k.t)}, {AttributeName: aws1.String("r"), AttributeType: aws1.String(k.t)}},
+			KeySchema:            []*ddb1.KeySchemaElement{{AttributeName: aws1.String("h"), KeyType: aws1.String("HASH")}, {AttributeName: aws1.String("r"), KeyType: aws1.String("RANGE")}}})
+		if err != nil {
+			return nil, nil, false
+		}
+		read := func() string {
+			o, err := c.GetItem(&ddb1.GetItemInput{TableName: aws1.String("tab"), Key: drv.ItemToV1(keyItem())})
+			sc, err2 := c.Scan(&ddb1.ScanInput{TableName: aws1.String("tab")})
+			if err != nil || err2 != nil {
+				return fmt.Sprintf("error %v %v", err, err2)
+			}
+			out := "get " + drv.ItemFromV1(o.Item).CanonText() + " scan"
+			for _, it := range sc.Items {
+				out += " " + drv.ItemFromV1(it).CanonText()
+			}
+			return out
+		}
+		if op != "UpdateItem(creates the item)" {
+			if _, err := c.PutItem(&ddb1.PutItemInput{TableName: aws1.String("tab"), Item: drv.ItemToV1(val.Item{"h": k.v.Clone(), "r": k.w.Clone(), "v": val.S("stored")})}); err != nil {
+				return nil, nil, false
+			}
+		}
+		held := drv.ItemToV1(keyItem())
+		vals := map[string]*ddb1.AttributeValue{":x": {S: aws1.String("x")}}
+		switch op {
+		case "UpdateItem(creates the item)", "UpdateItem(existing item)":
+			_, err = c.UpdateItem(&ddb1.UpdateItemInput{TableName: aws1.String("tab"), Key: held, UpdateExpression: aws1.String("SET w = :x"), ExpressionAttributeValues: vals})
+		case "DeleteItem(condition false)":
+			_, err = c.DeleteItem(&ddb1.DeleteItemInput{TableName: aws1.String("tab"), Key: held, ConditionExpression: aws1.String("v = :x"), ExpressionAttributeValues: vals})
+			if err != nil {
+				err = nil
+			} else {
+				return nil, nil, false
+			}
+		case "GetItem":
+			_, err = c.GetItem(&ddb1.GetItemInput{TableName: aws1.String("tab"), Key: held})
+		}
+		if err != nil {
+			return nil, nil, false
+		}
+		mutsV1Item(held, &muts)
+		return muts, read, true
+	}
+	ctx := context.Background()
+	c := v2c.NewClient()
+	_, err := c.CreateTable(ctx, &ddb2.CreateTableInput{TableName: aws2.String("tab"), BillingMode: types2.BillingModePayPerRequest,
+		AttributeDefinitions: []types2.AttributeDefinition{{AttributeName: aws2.String("h"), AttributeType: types2.ScalarAttributeType(k.t)}, {AttributeName: aws2.String("r"), AttributeType: types2.ScalarAttributeType(k.t)}},
+		KeySchema:            []types2.KeySchemaElement{{AttributeName: aws2.String("h"), KeyType: types2.KeyTypeHash}, {AttributeName: aws2.String("r"), KeyType: types2.KeyTypeRange}}})
+	if err != nil {
+		return nil, nil, false
+	}
+	read := func() string {
+		o, err := c.GetItem(ctx, &ddb2.GetItemInput{TableName: aws2.String("tab"), Key: drv.ItemToV2(keyItem())})
+		sc, err2 := c.Scan(ctx, &ddb2.ScanInput{TableName: aws2.String("tab")})
+		if err != nil || err2 != nil {
+			return fmt.Sprintf("error %v %v", err, err2)
+		}
+		out := "get " + drv.ItemFromV2(o.Item).CanonText() + " scan"
+		for _, it := range sc.Items {
+			out += " " + drv.ItemFromV2(it).CanonText()
+		}
+		return out
+	}
+	if op != "UpdateItem(creates the item)" {
+		if _, err := c.PutItem(ctx, &ddb2.PutItemInput{TableName: aws2.String("tab"), Item: drv.ItemToV2(val.Item{"h": k.v.Clone(), "r": k.w.Clone(), "v": val.S("stored")})}); err != nil {
+			return nil, nil, false
+		}
+	}
+	held := drv.ItemToV2(keyItem())
+	vals := map[string]types2.AttributeValue{":x": &types2.AttributeValueMemberS{Value: "x"}}
+	switch op {
+	case "UpdateItem(creates the item)", "UpdateItem(existing item)":
+		_, err = c.UpdateItem(ctx, &ddb2.UpdateItemInput{TableName: aws2.String("tab"), Key: held, UpdateExpression: aws2.String("SET w = :x"), ExpressionAttributeValues: vals})
+	case "DeleteItem(condition false)":
+		_, err = c.DeleteItem(ctx, &ddb2.DeleteItemInput{TableName: aws2.String("tab"), Key: held, ConditionExpression: aws2.String("v = :x"), ExpressionAttributeValues: vals})
+		if err != nil {
+			err = nil
+		} else {
+			return nil, nil, false
+		}
+	case "GetItem":
+		_, err = c.GetItem(ctx, &ddb2.GetItemInput{TableName: aws2.String("tab"), Key: held})
+	}
+	if err != nil {
+		return nil, nil, false
+	}
+	mutsV2Item(held, &muts)
+	return muts, read, true
+}
+
+// c14Keys runs every key scenario: for each mutable location of the Key map, a fresh client, the
+// call, that one mutation, and a read of the table compared with the read of an unmutated run.
+func c14Keys(run *ev.Run, evals, locations *int64, skipped *int64) {
+	for _, sdk := range []string{"v2", "v1"} {
+		for _, op := range c14KeyOps {
+			for kt := range c14KeyTypes {
+				muts, read, ok := c14KeyRun(sdk, op, kt)
+				if !ok {
+					atomic.AddInt64(skipped, 1)
+					continue
+				}
+				want := read()
+				atomic.AddInt64(locations, int64(len(muts)))
+				for i := range muts {
+					ms, rd, ok := c14KeyRun(sdk, op, kt)
+					if !ok || i >= len(ms) {
+						continue
+					}
+					ms[i].apply()
+					got := rd()
+					atomic.AddInt64(evals, 1)
+					if got != want {
+						run.Report(fmt.Sprintf("C14|%s|input:Key of %s|%s|stored-item-changed", sdk, op, ms[i].kind), fmt.Sprintf("key type %s: after mutating %s of the Key the caller passed to %s, the table reads %s instead of %s", c14KeyTypes[kt].t, ms[i].kind, op, got, want),
+							map[string]interface{}{"sdk": sdk, "scenario": "input:Key of " + op, "key_type": c14KeyTypes[kt].t, "location": ms[i].kind, "location_index": i})
+					}
+				}
+			}
+		}
+	}
+}
+
 func c14Trees(thorough bool) []val.V {
 	leaves := c10Leaves()
 	trees := append([]val.V{}, leaves...)
@@ -375,7 +515,7 @@ func C14(run *ev.Run, tier string) map[string]interface{} {
 				it := val.Item{"h": val.S("k"), "v": j.tree}
 				want := it.Clone()
 				ev.Breadcrumb(fmt.Sprintf("C14 %s %s %s", j.sdk.name, j.sc, j.tree.CanonText()))
-				muts, _, _, _, ok := j.sdk.run(j.sc, it)
+				muts, readBase, _, _, ok := j.sdk.run(j.sc, it)
 				if !ok {
 					continue
 				}
@@ -383,6 +523,14 @@ func C14(run *ev.Run, tier string) map[string]interface{} {
 					// the stored item after the scenario's own update
 					if j.sc == "output:UpdateItem" {
 						want["w"] = val.S("w")
+					}
+				}
+				if j.sc == "input:UpdateItem-values" {
+					// the value went through the expression interpreter (whose numbers are doubles: C12's
+					// finding): the reference is what the same call stores when nothing is mutated
+					want = readBase()
+					if _, failed := want["error"]; failed {
+						continue
 					}
 				}
 				atomic.AddInt64(&locations, int64(len(muts)))
@@ -429,12 +577,15 @@ func C14(run *ev.Run, tier string) map[string]interface{} {
 	}
 	close(ch)
 	wg.Wait()
+	var keySkipped int64
+	c14Keys(run, &evals, &locations, &keySkipped)
 	return map[string]interface{}{
+		"key_scenarios":           fmt.Sprintf("%d calls x %d key types x 2 clients, %d not applicable", len(c14KeyOps), len(c14KeyTypes), keySkipped),
 		"evaluations":             evals,
 		"distinct_nontrivial":     locations,
 		"value_trees":             len(trees),
-		"rule":                    "for every value tree (boundary leaves and lists/maps with 0-2 children over a representative set) and every mutable location of its SDK representation (string/bool pointers, every byte of binaries, set members, list elements, map entries; member structs of SDK v2), in every scenario (inputs of PutItem, UpdateItem values, BatchWriteItem; outputs of GetItem, Query, Scan, UpdateItem and the ConditionalCheckFailed item): perform the call on a fresh client, mutate that one location, read the item again; plus output-then-later-write for every output scenario; a case is distinct by (sdk, scenario, tree, location)",
-		"oracle":                  "every later GetItem returns the item as written (the mutation was never passed through the API); a returned structure converts to the same value before and after later writes",
+		"rule":                    "for every value tree (boundary leaves and lists/maps with 0-2 children over a representative set) and every mutable location of its SDK representation (string/bool pointers, every byte of binaries, set members, list elements, map entries; member structs of SDK v2), in every scenario (inputs of PutItem, UpdateItem values, BatchWriteItem; outputs of GetItem, Query, Scan, UpdateItem and the ConditionalCheckFailed item): perform the call on a fresh client, mutate that one location, read the item again; plus output-then-later-write for every output scenario; plus the Key map passed to UpdateItem (creating the item / on an existing item), DeleteItem (rejected) and GetItem for S, N and B hash+range keys, every location mutated after the call; a case is distinct by (sdk, scenario, tree, location)",
+		"oracle":                  "every later GetItem returns the item as written (for UpdateItem values: as the same call stores it on a client whose caller mutates nothing), since the mutation was never passed through the API; a returned structure converts to the same value before and after later writes",
 		"samples":                 []interface{}{"v1 input:PutItem {v: L[S in, B 09]} mutate byte of B", "v2 output:Scan {v: BS[01,0203]} mutate member of BS replaced"},
 		"exhaustive":              true,
 		"evaluations_by_scenario": hist,
